@@ -195,9 +195,16 @@ def shard(col, shard_i, ngrammars, ninputs):
                           f'implementation and model disagree ({what}) with semantics {small.semspec}',
                           {'correspondence': 'E1 x semantics', 'case': small.describe(), 'impl': rr[1], 'model': rr[2], 'extra': rr[3]})
         # generated parser with the same semantics (implementation vs implementation)
-        if c.tag in ('none', 'identity') or col.rng.random() < 0.15:
+        if c.tag in ('none', 'identity') or col.rng.random() < 0.15 or io[0] == 'exc':
+            E.LAST_EXCEPTION = None
             go, gcalls = R.gen_outcome(c)
             col.count('genparser.compared')
+            # "reaches the caller unchanged": the exception object an action raised, not another one of the same class
+            if isinstance(go, tuple) and go and go[0] == 'exc' and io[0] == 'exc' and go[1] == io[1] and E.LAST_EXCEPTION is not None \
+                    and go[1] not in ('StopIteration',) and 'boom' not in str(E.LAST_EXCEPTION):
+                col.violation(f'oracle:genparser-exception-replaced:{go[1]}',
+                              'the generated parser hands the caller another exception than the one the action raised',
+                              {'oracle': 'exception reaches the caller unchanged', 'case': c.describe(), 'message': str(E.LAST_EXCEPTION)[:200]})
             if isinstance(go, tuple) and go and go[0] in ('ok', 'fail', 'exc') and io[0] in ('fail', 'exc') and go != io and (go[0], io[0]) != ('ok', 'ok'):
                 if not (go[0] == 'ok'):   # differing ASTs on success are C02's subject (last_node family)
                     col.violation(f'oracle:genparser-semantics:{io[0]}{"." + str(io[1]) if io[0] == "exc" else ""}-vs-{go[0]}{"." + str(go[1]) if go[0] == "exc" else ""}',
@@ -216,6 +223,47 @@ def shard(col, shard_i, ngrammars, ninputs):
         col.sample(cases[len(cases) // 2].describe())
 
 
+def shard_history(col, shard_i, n):
+    """one generated parser OBJECT over several parse() calls with DIFFERENT semantics objects (A, then B, then none, ...): each call
+    must run the actions of the object it was given (compared with a fresh parser and with model.parse)"""
+    import tatsu
+    rng = col.rng
+
+    def outcome(run):
+        try:
+            return ('ok', E.canon(run()))
+        except tatsu.exceptions.FailedParse:
+            return ('fail', None)
+        except Exception as e:  # noqa
+            return ('exc', type(e).__name__)
+    for _ in range(n):
+        g = simple_rule_grammar(rng)
+        cls = R.generated_parser(g)
+        m = R.compile_grammar(g)
+        if isinstance(cls, tuple) or isinstance(m, tuple):
+            continue
+        names = [nm for nm, _, _ in g['rules']]
+        texts = [t[:30] for t in G.gen_inputs(rng, g, 6)]
+        reused = cls()
+        hist = []
+        for step in range(rng.randint(3, 6)):
+            t = rng.choice(texts)
+            spec = rng.choice([('none', {}), ('identity', {}), ('none', {nm: 'tag' for nm in names if rng.random() < 0.6}),
+                               ('none', {nm: ('const', step) for nm in names if rng.random() < 0.4})])
+            hist.append((t, repr(spec)))
+            a = outcome(lambda: reused.parse(t, semantics=E.make_semantics(spec, names)))
+            b = outcome(lambda: cls().parse(t, semantics=E.make_semantics(spec, names)))
+            c = outcome(lambda: m.parse(t, semantics=E.make_semantics(spec, names)))
+            col.case(['sem-history', E.grammar_text(g), repr(hist)], nontrivial=step > 0)
+            col.count('history.calls')
+            if a != b or a[0] != c[0]:
+                col.violation(f'oracle:semantics-history:reused={a[0]}:fresh={b[0]}:model={c[0]}',
+                              'a reused generated parser runs the actions of an earlier semantics object (or differs from the model)',
+                              {'oracle': 'actions of the semantics object given to THIS call', 'grammar': E.grammar_text(g), 'history': hist,
+                               'reused': a, 'fresh': b, 'model.parse': c})
+                break
+
+
 def main():
     chk = Check(PID)
     chk.rule = ('random grammars extended with leaf rules (some @nomemo) whose values are plain strings x inputs x semantics objects drawn from '
@@ -231,8 +279,10 @@ def main():
     if ok:
         if chk.quick:
             vlib.run_sharded(chk, shard, 14, extra=(16, 8))
+            vlib.run_sharded(chk, shard_history, 14, extra=(6,))
         else:
             vlib.run_sharded(chk, shard, 28, extra=(40, 10))
+            vlib.run_sharded(chk, shard_history, 28, extra=(40,))
         chk.obligation('E1 x semantics: results and action-call sequences, implementation vs model', 'correspondence',
                        not any(v['signature'].startswith('E1sem') for v in chk.violations))
         chk.obligation('identity == no semantics; generated parser agrees on failures/exceptions (implementation only)', 'oracle',
